@@ -118,6 +118,43 @@ def parse_case(tree, rng=None, fancy=0.0, version="2.1"):
     return {"kind": "parse", "cst": tree, "text": G.text_of(G.y_fb(tree), rng, fancy), "version": version}
 
 
+ENV_KEYS = ("tz", "forms", "alt_k", "hashseed")      # how a case is to be run (alternate run): kept by derived cases
+
+
+def carry(src, c):
+    for k in ENV_KEYS:
+        if k in src:
+            c[k] = src[k]
+    return c
+
+
+def run_cases(cases, procs=None, ordered=False):
+    """the implementation worker over cases; cases that ask for another PYTHONHASHSEED go to interpreters started with
+    it.  ordered: contiguous chunks (neighbouring cases stay neighbours in one interpreter) instead of strided ones."""
+    if not cases:
+        return []
+    out = [None] * len(cases)
+    groups = {}
+    for i, c in enumerate(cases):
+        groups.setdefault(c.get("hashseed"), []).append(i)
+    for hs, idx in groups.items():
+        args = ("--hashseed=%s" % hs,) if hs is not None else ()
+        sub = [cases[i] for i in idx]
+        if ordered:
+            from concurrent.futures import ThreadPoolExecutor
+            n = procs or min(common.NCPU, max(1, len(sub) // 200))
+            size = -(-len(sub) // n)
+            chunks = [sub[j:j + size] for j in range(0, len(sub), size)]
+            with ThreadPoolExecutor(max_workers=len(chunks)) as ex:
+                parts = list(ex.map(lambda ch: common.run_impl("c10_impl", ch, procs=1, args=args), chunks))
+            res = [r for part in parts for r in part]
+        else:
+            res = common.run_impl("c10_impl", sub, procs=procs, args=args)
+        for i, r in zip(idx, res):
+            out[i] = r
+    return out
+
+
 # --------------------------------------------------------------------------
 # comparison of one case: model line vs implementation observations
 
@@ -357,7 +394,7 @@ def select_variant(run):
     variants of the model; the flag is the variant whose result the code gives"""
     flags = list(FLAGS)
     cases = [parse_case(WITNESS_TREE[f]) for f in flags]
-    impl = common.run_impl("c10_impl", cases, procs=1)
+    impl = run_cases(cases, procs=1)
     rep = {f: True for f in FLAGS}
     pin = {f: False for f in FLAGS}
     terms = []
@@ -396,8 +433,8 @@ def attribute(run, cases, results, problems_of, label):
 
     def neutral(c, ids):
         if c["kind"] == "parse":
-            return parse_case(G.neutralise(c["cst"], ids))
-        return {"kind": "prog", "spec": G.prog_neutralise(c["spec"], ids), "wg": c.get("wg"), "version": c.get("version", "2.1")}
+            return carry(c, parse_case(G.neutralise(c["cst"], ids), version=c.get("version", "2.1")))
+        return carry(c, {"kind": "prog", "spec": G.prog_neutralise(c["spec"], ids), "wg": c.get("wg"), "version": c.get("version", "2.1")})
 
     for i, p in failing:
         c = cases[i]
@@ -410,7 +447,7 @@ def attribute(run, cases, results, problems_of, label):
                 for f in fs:
                     retry.append(neutral(c, set(fs) - {f}))
                     key.append((i, f))
-    rres = common.run_impl("c10_impl", retry, procs=min(common.NCPU, 4)) if retry else []
+    rres = run_cases(retry, procs=min(common.NCPU, 4)) if retry else []
     passes = {}
     for kx, c2, r2 in zip(key, retry, rres):
         passes[kx] = not (oracle_parse(c2, r2) if c2["kind"] == "parse" else oracle_prog(c2, r2))
@@ -440,7 +477,7 @@ def problem_kind(p):
 
 def reproduces_alone(c, kind=None):
     """does the oracle fail on this single input in a fresh interpreter (what --replay will do)?"""
-    r = common.run_impl("c10_impl", [c], procs=1)[0]
+    r = run_cases([c], procs=1)[0]
     p = oracle_parse(c, r) if c["kind"] == "parse" else oracle_prog(c, r)
     return bool(p) and (kind is None or problem_kind(p) == kind)
 
@@ -456,16 +493,16 @@ def shrink(v, rounds=40, width=60):
     cur, curp = c, v.replay.get("problems")
     for _ in range(rounds):
         if cur["kind"] == "parse":
-            cands = [parse_case(t, version=cur.get("version", "2.1")) for t in G.shrink_candidates(cur["cst"])]
+            cands = [carry(cur, parse_case(t, version=cur.get("version", "2.1"))) for t in G.shrink_candidates(cur["cst"])]
             cands = [x for x in cands if G.features(x["cst"]) <= feats and G.in_scope(x["cst"])]
         else:
-            cands = [{"kind": "prog", "spec": sp, "wg": cur.get("wg"), "version": cur.get("version", "2.1")}
+            cands = [carry(cur, {"kind": "prog", "spec": sp, "wg": cur.get("wg"), "version": cur.get("version", "2.1")})
                      for sp in G.shrink_candidates_prog(cur["spec"]) if G.prog_features(sp) <= feats]
         cands.sort(key=lambda x: len(json.dumps(x.get("cst", x.get("spec")))))
         cands = cands[:width]
         if not cands:
             break
-        res = common.run_impl("c10_impl", cands, procs=1)
+        res = run_cases(cands, procs=1)
         nxt = None
         for x, r in zip(cands, res):
             p = oracle_parse(x, r) if x["kind"] == "parse" else oracle_prog(x, r)
@@ -566,7 +603,7 @@ def check(run):
 
     timing["variant_s"] = round(time.time() - t1, 1)
     t1 = time.time()
-    impl = common.run_impl("c10_impl", cases)
+    impl = run_cases(cases)
     timing["impl_s"] = round(time.time() - t1, 1)
     t1 = time.time()
 
@@ -583,14 +620,54 @@ def check(run):
     idx20 = [i for i, c in enumerate(cases) if c["kind"] == "parse" and i < n_fixed + n_sys
              and "C10-exists-unhandled" not in G.features(c["cst"])]
     cases20 = [dict(cases[i], version="2.0") for i in idx20]
-    impl20 = common.run_impl("c10_impl", cases20)
+    # names that are keywords of the 2.1 grammar only: ordinary identifiers in 2.0 patterns (own model lines)
+    only20 = [parse_case(t, version="2.0") for t in G.only20_family()]
+    impl20 = run_cases(cases20 + only20)
+    lines20 = []
+    if lines is not None:
+        try:
+            lines20 = common.coq_eval_lines("c10v20", HEADER, [model_parse_term(cfg, c) for c in only20], shard=150, timeout=600)
+        except RuntimeError as e:
+            run.broken.append(Broken("correspondence", "model evaluation failed (2.0-only names)", {"error": str(e)[-1500:]}))
+            lines = None
+    cases20 += only20
     dis20 = []
     if lines is not None:
-        for i, c2, r2 in zip(idx20, cases20, impl20):
-            d = compare_parse(c2, r2, lines[i], Hashed)
+        for ln, c2, r2 in zip([lines[i] for i in idx20] + list(lines20), cases20, impl20):
+            d = compare_parse(c2, r2, ln, Hashed)
             if d:
                 dis20.append({"case": c2["text"], "version": "2.0", "differences": [w for w, _, _ in d[:3]]})
     run.coverage["correspondence_cases_2_0"] = len(cases20)
+    # ---- alternate run: the same questions in fresh interpreters under another time zone and hash seed, in reverse
+    #      order, the 2.0 question directly before the 2.1 one on the same text, through other public argument forms
+    #      (version positional / default, constants from text, keyword arguments), the first ones asked a second time at
+    #      the end; every answer is held against the same model line and the same oracle as the default run
+    zones = ["JST-9", "EST5EDT", "UTC0", "<+0545>-5:45"]
+    in20 = set(idx20)
+    alt_cases, alt_of = [], []
+    order = list(range(len(cases) - 1, -1, -1)) + list(range(min(200, len(cases))))
+    for n, i in enumerate(order):
+        env = {"tz": zones[(n // 97) % len(zones)], "forms": "alt", "alt_k": n % 6, "hashseed": "4242"}
+        if i in in20 and n < len(cases):
+            alt_cases.append(dict(cases[i], version="2.0", **env))
+            alt_of.append(i)
+        alt_cases.append(dict(cases[i], **env))
+        alt_of.append(i)
+    t1 = time.time()
+    impl_alt = run_cases(alt_cases, ordered=True)
+    timing["impl_alt_s"] = round(time.time() - t1, 1)
+    dis_alt = []
+    if lines is not None:
+        for i, c2, r2 in zip(alt_of, alt_cases, impl_alt):
+            d = compare_parse(c2, r2, lines[i], Hashed) if c2["kind"] == "parse" else compare_prog(c2, r2, lines[i], Hashed)
+            same = all(r2.get(k) == impl[i].get(k) for k in ("ast", "str", "m_ast", "re_ast", "re_str")) if c2["version"] == cases[i]["version"] else None
+            if d or same is False:
+                dis_alt.append({"case": c2.get("text", c2.get("spec")), "version": c2["version"],
+                                "run": {k: c2[k] for k in ENV_KEYS}, "differences": [w for w, _, _ in d[:3]] or ["differs from the default run"]})
+    run.coverage["alternate_run_cases"] = len(alt_cases)
+    if dis_alt:
+        run.broken.append(Broken("correspondence", "alternate run (time zone, hash seed, order, argument forms) vs the model / the default run",
+                                 {"count": len(dis_alt), "first": dis_alt[:4]}))
     if dis20:
         run.broken.append(Broken("correspondence", "2.0 parser/visitor vs the model", {"count": len(dis20), "first": dis20[:4]}))
     for c, r in zip(cases, impl):
@@ -624,6 +701,16 @@ def check(run):
     problems20 = [oracle_parse(c, r) for c, r in zip(cases20, impl20)]
     by_class20 = attribute(run, cases20, impl20, problems20, "pattern (2.0 grammar)")
     run.coverage["oracle_failures_by_class_2_0"] = by_class20
+    problems_alt = [oracle_parse(c, r) if c["kind"] == "parse" else oracle_prog(c, r) for c, r in zip(alt_cases, impl_alt)]
+    # only what the default run did not already report: a failure of the same input there is the same failure
+    failed_default = {i for i, p in enumerate(problems) if p}
+    problems_alt = [p if (p and (i not in failed_default or c["version"] != cases[i]["version"])) else []
+                    for i, c, p in zip(alt_of, alt_cases, problems_alt)]
+    for c in alt_cases:
+        if c["kind"] == "prog" and c.get("wg") is None:
+            c["wg"] = False
+    by_class_alt = attribute(run, alt_cases, impl_alt, problems_alt, "pattern (alternate run: TZ, hash seed, order, argument forms)")
+    run.coverage["oracle_failures_by_class_alternate_run"] = by_class_alt
     size = lambda v: len(json.dumps(v.replay.get("case", {}).get("text") or v.replay.get("case", {}).get("spec") or ""))   # noqa: E731
     # smallest failing input first; the unclassified ones that will be printed are shrunk
     run.violations.sort(key=size)
@@ -675,7 +762,7 @@ def check(run):
 def replay(payload):
     r = payload["replay"]
     c = r["case"]
-    res = common.run_impl("c10_impl", [c], procs=1)[0]
+    res = run_cases([c], procs=1)[0]
     print("replay %s" % json.dumps(c.get("text", c.get("spec")))[:400])
     for k in ("valid_in", "ast", "str_raw", "valid_out", "m_tree", "m_ast", "re_m_tree", "re_str"):
         if k in res:
